@@ -1,13 +1,37 @@
 // Package c05 decides property C05 (attribute sets are canonical) by
 // comparing attribute.Set against a map[key]lastValue model over generated
 // key-value lists, permutations / duplications of them and filters.
+//
+// The model is built from the generated DATA (vk.KV: the bytes / bits that
+// are handed to the constructors), never from the attribute.Value the
+// library's constructors return: "no input value is lost" and "the value
+// supplied last" are about what the caller supplied (rawKey in model.go).
+//
+// Sub-checks:
+//   - set_model     one list -> one Set, everything observable compared with
+//     the model (this file, model.go, twins.go, extra.go)
+//   - slot_program  a generated sequence of assignments to / observations of
+//     a few Set *storage locations* (slots_test.go): a Set is a plain value,
+//     a variable holding one may be assigned another; every observation
+//     (Encoded with several encoders, Equals, Equivalent as map key, lookups,
+//     iteration, merging) must agree with what the location holds NOW.
+//
+// Readings of the statement chosen where it is ambiguous:
+//   - pairs of sets equal under exactly one of {bitwise, Go ==} are not
+//     asserted either way;
+//   - "encoding agrees with the contents" is asserted for Encoded (default
+//     encoder: reference escaping; user encoders: the iterator they are given
+//     shows the contents), Emit (read back), MarshalLog and, when it succeeds,
+//     MarshalJSON (read back); that MarshalJSON succeeds is not asserted;
+//   - strings are byte strings: bytes that are not valid UTF-8 are part of the
+//     value (renderings that cannot carry them - JSON, the default encoder's
+//     rune loop - are not compared for such values).
 package c05
 
 import (
 	"encoding/json"
 	"fmt"
 	"math"
-	"sort"
 	"strconv"
 	"strings"
 	"testing"
@@ -24,28 +48,54 @@ type Case struct {
 	Order  []int    `json:"order"`  // interleaving recipe for the derived list
 	Dup    []bool   `json:"dup"`    // which items are duplicated in the derived list
 	Other  []vk.KV  `json:"other"`  // a second list (equality / merge partner)
-	Filter []string `json:"filter"` // key subset
-	Deny   bool     `json:"deny"`   // filter is a deny list instead of an allow list
+	FKind  string   `json:"fkind"`  // predicate family: "keys" (default), "types", "below", "valid"
+	Filter []string `json:"filter"` // key subset ("keys") / type-tag subset ("types")
+	Pivot  vk.Str   `json:"pivot"`  // "below": keep keys < Pivot
+	Deny   bool     `json:"deny"`   // the predicate is negated (deny list instead of allow list)
 	Probes []string `json:"probes"` // keys looked up with Value/HasValue
 }
 
 var keys = []string{"a", "b", "c", "d", "e", "f", "g", "h", "i", "j", "k", "l", "m", "n", "aa", "A", "k.long.key"}
 
+var typeTags = []string{"bool", "int", "float", "str", "bools", "ints", "floats", "strs", "invalid"}
+
+// wideKeys is a large key space whose byte order differs from its numeric
+// order ("k10" < "k2") and whose members share prefixes.
+func wideKeys(n int) []string {
+	out := make([]string, 0, n+2)
+	for i := 0; i < n; i++ {
+		out = append(out, "k"+strconv.Itoa(i))
+	}
+	return append(out, "k", "k\x00")
+}
+
 func gen(t *rapid.T) Case {
-	// Two alphabets: a short one (many duplicates) and a long one (reaches
-	// the >10 reflect path with distinct keys).
+	// Three alphabets: a short one (many duplicates), a long one (reaches the
+	// >10 reflect path with distinct keys) and, occasionally, a wide one with
+	// list lengths drawn on a log scale ("very long slices").
 	ks := keys[:6]
-	if rapid.Bool().Draw(t, "longalpha") {
+	maxLen, corners := 24, []int{0, 1, 2, 9, 10, 11, 12, 17}
+	switch rapid.IntRange(0, 59).Draw(t, "alphabet") {
+	case 0:
+		bits := rapid.IntRange(5, 10).Draw(t, "lenbits")
+		maxLen, corners = 1<<bits, nil
+		ks = wideKeys(rapid.SampledFrom([]int{4, 40, 400}).Draw(t, "keyspace"))
+	case 1, 2, 3, 4, 5, 6, 7, 8, 9, 10, 11, 12, 13, 14, 15, 16, 17, 18, 19, 20, 21, 22, 23, 24, 25, 26, 27, 28, 29, 30:
 		ks = keys
 	}
+	wide := corners == nil
 	o := vk.KVOpts{Keys: ks, EmptyKey: true, Invalid: true, InvalidUTF8: true, NaN: true, MaxSlice: 3, MaxTextParts: 4}
 	c := Case{}
-	c.KVs = vk.GenKVs(o, 24, 0, 1, 2, 9, 10, 11, 12, 17).Draw(t, "kvs")
+	c.KVs = vk.GenKVs(o, maxLen, corners...).Draw(t, "kvs")
 	c.Order = rapid.SliceOfN(rapid.IntRange(0, 63), len(c.KVs), len(c.KVs)).Draw(t, "order")
 	c.Dup = rapid.SliceOfN(rapid.Bool(), len(c.KVs), len(c.KVs)).Draw(t, "dup")
-	switch rapid.IntRange(0, 3).Draw(t, "otherkind") {
+	switch rapid.IntRange(0, 5).Draw(t, "otherkind") {
 	case 0: // unrelated
-		c.Other = vk.GenKVs(o, 14, 0, 1, 10, 11).Draw(t, "other")
+		if wide {
+			c.Other = vk.GenKVs(o, maxLen/2).Draw(t, "other")
+		} else {
+			c.Other = vk.GenKVs(o, 14, 0, 1, 10, 11).Draw(t, "other")
+		}
 	case 1: // same as KVs with one value changed
 		c.Other = append([]vk.KV{}, c.KVs...)
 		if len(c.Other) > 0 {
@@ -57,130 +107,33 @@ func gen(t *rapid.T) Case {
 	case 2: // one key removed / added
 		c.Other = append([]vk.KV{}, c.KVs...)
 		c.Other = append(c.Other, vk.GenKV(o).Draw(t, "extra"))
+	case 3, 4: // near-twin: one item replaced by a value one small edit away
+		c.Other = append([]vk.KV{}, c.KVs...)
+		if len(c.Other) > 0 {
+			i := rapid.IntRange(0, len(c.Other)-1).Draw(t, "twinof")
+			c.Other = append(c.Other, twinKV(t, c.Other[i]))
+		}
 	default: // identical content
 		c.Other = append([]vk.KV{}, c.KVs...)
 	}
-	c.Filter = rapid.SliceOfN(rapid.SampledFrom(append([]string{""}, ks...)), 0, 6).Draw(t, "filter")
+	c.FKind = rapid.SampledFrom([]string{"keys", "keys", "keys", "types", "below", "below", "valid"}).Draw(t, "fkind")
+	switch c.FKind {
+	case "keys":
+		c.Filter = rapid.SliceOfN(rapid.SampledFrom(append([]string{""}, ks...)), 0, 6).Draw(t, "filter")
+	case "types":
+		c.Filter = rapid.SliceOfN(rapid.SampledFrom(typeTags), 0, 5).Draw(t, "ftypes")
+	case "below":
+		// a pivot splits the sorted set into a prefix and a suffix: taken from
+		// the list itself (so that it falls inside) or from the alphabet
+		if len(c.KVs) > 0 && rapid.Bool().Draw(t, "pivotfromlist") {
+			c.Pivot = c.KVs[rapid.IntRange(0, len(c.KVs)-1).Draw(t, "pivotidx")].K
+		} else {
+			c.Pivot = vk.Str(rapid.SampledFrom(append([]string{"", "\xff"}, ks...)).Draw(t, "pivot"))
+		}
+	}
 	c.Deny = rapid.Bool().Draw(t, "deny")
 	c.Probes = rapid.SliceOfN(rapid.SampledFrom(append([]string{"", "\x00", "0", "zz", "\xff\xff", "ab"}, ks...)), 1, 5).Draw(t, "probes")
 	return c
-}
-
-// model is the reference: key -> last value, rendered bit-exactly.
-type model struct {
-	keys []string // sorted
-	val  map[string]attribute.Value
-}
-
-func newModel(kvs []attribute.KeyValue) model {
-	m := model{val: map[string]attribute.Value{}}
-	for _, kv := range kvs {
-		m.val[string(kv.Key)] = kv.Value
-	}
-	for k := range m.val {
-		m.keys = append(m.keys, k)
-	}
-	sort.Strings(m.keys)
-	return m
-}
-
-func (m model) render() []string {
-	out := make([]string, len(m.keys))
-	for i, k := range m.keys {
-		out[i] = fmt.Sprintf("%q=%s", k, vk.ValueKey(m.val[k]))
-	}
-	return out
-}
-
-func renderSlice(kvs []attribute.KeyValue) []string {
-	out := make([]string, len(kvs))
-	for i, kv := range kvs {
-		out[i] = fmt.Sprintf("%q=%s", string(kv.Key), vk.ValueKey(kv.Value))
-	}
-	return out
-}
-
-func sameStrings(a, b []string) bool {
-	if len(a) != len(b) {
-		return false
-	}
-	for i := range a {
-		if a[i] != b[i] {
-			return false
-		}
-	}
-	return true
-}
-
-func multiset(kvs []attribute.KeyValue) map[string]int {
-	m := map[string]int{}
-	for _, s := range renderSlice(kvs) {
-		m[s]++
-	}
-	return m
-}
-
-func sameMultiset(a, b map[string]int) bool {
-	if len(a) != len(b) {
-		return false
-	}
-	for k, v := range a {
-		if b[k] != v {
-			return false
-		}
-	}
-	return true
-}
-
-// goEqualValue is Go-level (==) equality of typed values: floats compare as
-// floats (NaN != NaN, +0 == -0).
-func goEqualValue(a, b attribute.Value) bool {
-	if a.Type() != b.Type() {
-		return false
-	}
-	switch a.Type() {
-	case attribute.FLOAT64:
-		return a.AsFloat64() == b.AsFloat64()
-	case attribute.FLOAT64SLICE:
-		x, y := a.AsFloat64Slice(), b.AsFloat64Slice()
-		if len(x) != len(y) {
-			return false
-		}
-		for i := range x {
-			if x[i] != y[i] {
-				return false
-			}
-		}
-		return true
-	}
-	return vk.ValueKey(a) == vk.ValueKey(b)
-}
-
-func (m model) bitEqual(o model) bool { return sameStrings(m.render(), o.render()) }
-
-func (m model) goEqual(o model) bool {
-	if !sameStrings(m.keys, o.keys) {
-		return false
-	}
-	for _, k := range m.keys {
-		if !goEqualValue(m.val[k], o.val[k]) {
-			return false
-		}
-	}
-	return true
-}
-
-func (m model) hasNaNSlice() bool {
-	for _, v := range m.val {
-		if v.Type() == attribute.FLOAT64SLICE {
-			for _, f := range v.AsFloat64Slice() {
-				if math.IsNaN(f) {
-					return true
-				}
-			}
-		}
-	}
-	return false
 }
 
 // derived builds a permuted + duplicated list with the same last value per key.
@@ -215,49 +168,86 @@ func derived(c Case) []vk.KV {
 	return out
 }
 
-func mkFilter(c Case) (attribute.Filter, func(string) bool) {
-	ks := make([]attribute.Key, len(c.Filter))
-	in := map[string]bool{}
-	for i, k := range c.Filter {
-		ks[i] = attribute.Key(k)
-		in[k] = true
-	}
-	if c.Deny {
-		// NewDenyKeysFilter() with no keys allows everything.
-		return attribute.NewDenyKeysFilter(ks...), func(k string) bool { return !in[k] }
-	}
-	// NewAllowKeysFilter() with no keys denies everything.
-	return attribute.NewAllowKeysFilter(ks...), func(k string) bool { return in[k] }
+var tagOfType = map[attribute.Type]string{
+	attribute.BOOL: "bool", attribute.INT64: "int", attribute.FLOAT64: "float", attribute.STRING: "str",
+	attribute.BOOLSLICE: "bools", attribute.INT64SLICE: "ints", attribute.FLOAT64SLICE: "floats", attribute.STRINGSLICE: "strs",
+	attribute.INVALID: "invalid",
 }
 
-func refEscape(s string) string {
-	return strings.NewReplacer(`\`, `\\`, `=`, `\=`, `,`, `\,`).Replace(s)
+// mkFilter returns the predicate for the library and the same predicate over
+// the generated data.
+func mkFilter(kind string, names []string, pivot string, deny bool) (attribute.Filter, func(vk.KV) bool) {
+	in := map[string]bool{}
+	for _, k := range names {
+		in[k] = true
+	}
+	var lib attribute.Filter
+	var ref func(vk.KV) bool
+	switch kind {
+	case "types":
+		lib = func(kv attribute.KeyValue) bool { return in[tagOfType[kv.Value.Type()]] }
+		ref = func(kv vk.KV) bool { return in[kv.T] }
+	case "below":
+		lib = func(kv attribute.KeyValue) bool { return string(kv.Key) < pivot }
+		ref = func(kv vk.KV) bool { return string(kv.K) < pivot }
+	case "valid":
+		// KeyValue.Valid is documented: key defined (non-empty) and type not INVALID
+		lib = func(kv attribute.KeyValue) bool { return kv.Valid() }
+		ref = func(kv vk.KV) bool { return kv.K != "" && kv.T != "invalid" }
+	default:
+		ks := make([]attribute.Key, len(names))
+		for i, k := range names {
+			ks[i] = attribute.Key(k)
+		}
+		if deny {
+			// NewDenyKeysFilter() with no keys allows everything.
+			return attribute.NewDenyKeysFilter(ks...), func(kv vk.KV) bool { return !in[string(kv.K)] }
+		}
+		// NewAllowKeysFilter() with no keys denies everything.
+		return attribute.NewAllowKeysFilter(ks...), func(kv vk.KV) bool { return in[string(kv.K)] }
+	}
+	if deny {
+		l, r := lib, ref
+		lib = func(kv attribute.KeyValue) bool { return !l(kv) }
+		ref = func(kv vk.KV) bool { return !r(kv) }
+	}
+	return lib, ref
 }
 
 func run(c Case) ([]vk.Violation, vk.Info) {
 	var vs []vk.Violation
 	var info vk.Info
-	bad := func(kind, format string, a ...any) { vs = append(vs, vk.V(kind, format, a...)) }
+	bad := func(kind, format string, a ...any) {
+		if len(vs) < 40 {
+			vs = append(vs, vk.V(kind, format, a...))
+		}
+	}
+	show := func(r []string) string {
+		if len(r) > 24 {
+			return fmt.Sprintf("%v ... (%d entries)", r[:24], len(r))
+		}
+		return fmt.Sprint(r)
+	}
 
 	input := vk.ToAttrs(c.KVs)
-	m := newModel(input)
+	m := newModel(c.KVs)
 	want := m.render()
-	inputMS := multiset(input)
+	inputMS := rawMultiset(c.KVs)
 
 	// --- construction ---
 	work := append([]attribute.KeyValue{}, input...)
 	s := attribute.NewSet(work...)
 	got := s.ToSlice()
 	if !sameStrings(renderSlice(got), want) {
-		bad("toslice_model", "ToSlice() = %v, model %v", renderSlice(got), want)
+		bad("toslice_model", "ToSlice() = %s, supplied (last value per key, sorted) %s", show(renderSlice(got)), show(want))
 	}
 	for i := 1; i < len(got); i++ {
 		if !(got[i-1].Key < got[i].Key) {
 			bad("not_strictly_sorted", "keys %q, %q at %d", got[i-1].Key, got[i].Key, i)
 		}
 	}
-	if !sameMultiset(multiset(work), inputMS) {
-		bad("caller_slice_lost_values", "caller slice after NewSet %v, passed %v", renderSlice(work), renderSlice(input))
+	if !sameMultiset(multiset(renderSlice(work)), inputMS) {
+		bad("caller_slice_lost_values", "caller slice after NewSet %s, supplied %s", show(renderSlice(work)), show(rawList(c.KVs)))
 	}
 	if s.Len() != len(m.keys) {
 		bad("len", "Len() = %d, model %d", s.Len(), len(m.keys))
@@ -270,17 +260,21 @@ func run(c Case) ([]vk.Violation, vk.Info) {
 			}
 			continue
 		}
-		if !ok || string(kv.Key) != m.keys[i] || vk.ValueKey(kv.Value) != vk.ValueKey(m.val[m.keys[i]]) {
-			bad("get", "Get(%d) = %v,%v", i, renderSlice([]attribute.KeyValue{kv}), ok)
+		if !ok || string(kv.Key) != m.keys[i] || vk.ValueKey(kv.Value) != rawKey(m.kv[m.keys[i]]) {
+			bad("get", "Get(%d) = %v,%v; supplied %s", i, renderSlice([]attribute.KeyValue{kv}), ok, rawEntry(m.kv[m.keys[i]]))
 		}
 	}
 	probes := append([]string{}, c.Probes...)
 	probes = append(probes, m.keys...)
 	for _, p := range probes {
 		v, ok := s.Value(attribute.Key(p))
-		mv, mok := m.val[p]
-		if ok != mok || (ok && vk.ValueKey(v) != vk.ValueKey(mv)) {
-			bad("value_lookup", "Value(%q) = %s,%v; model %s,%v", p, vk.ValueKey(v), ok, vk.ValueKey(mv), mok)
+		mv, mok := m.kv[p]
+		if ok != mok || (ok && vk.ValueKey(v) != rawKey(mv)) {
+			sup := "(absent)"
+			if mok {
+				sup = rawKey(mv)
+			}
+			bad("value_lookup", "Value(%q) = %s,%v; supplied %s,%v", p, vk.ValueKey(v), ok, sup, mok)
 		}
 		if s.HasValue(attribute.Key(p)) != mok {
 			bad("hasvalue", "HasValue(%q) = %v, model %v", p, !mok, mok)
@@ -290,8 +284,15 @@ func run(c Case) ([]vk.Violation, vk.Info) {
 	n := 0
 	for it.Next() {
 		i, kv := it.IndexedAttribute()
-		if i != n || n >= len(m.keys) || string(kv.Key) != m.keys[n] {
-			bad("iter", "iteration step %d yields index %d key %q", n, i, kv.Key)
+		if i != n || n >= len(m.keys) || string(kv.Key) != m.keys[n] || vk.ValueKey(kv.Value) != rawKey(m.kv[m.keys[n]]) {
+			bad("iter", "iteration step %d yields index %d, %v", n, i, renderSlice([]attribute.KeyValue{kv}))
+			break
+		}
+		// the deprecated spellings of the accessors show the same element
+		i2, kv2 := it.IndexedLabel()           //nolint:staticcheck // deprecated, still exported
+		kv3, kv4 := it.Label(), it.Attribute() //nolint:staticcheck // deprecated, still exported
+		if i2 != i || !sameStrings(renderSlice([]attribute.KeyValue{kv2, kv3, kv4}), renderSlice([]attribute.KeyValue{kv, kv, kv})) {
+			bad("iter", "iteration step %d: IndexedLabel/Label/Attribute disagree with IndexedAttribute", n)
 			break
 		}
 		n++
@@ -307,7 +308,7 @@ func run(c Case) ([]vk.Violation, vk.Info) {
 			it2.Next()
 		}
 		if ts := it2.ToSlice(); !sameStrings(renderSlice(ts), want) {
-			bad("iterator_toslice", "Iterator.ToSlice() after %d Next() calls = %v, model %v", adv, renderSlice(ts), want)
+			bad("iterator_toslice", "Iterator.ToSlice() after %d Next() calls = %s, model %s", adv, show(renderSlice(ts)), show(want))
 		}
 		if it2.Len() != len(m.keys) {
 			bad("iter_len", "Iterator.Len() after %d Next() calls = %d, model %d", adv, it2.Len(), len(m.keys))
@@ -321,45 +322,50 @@ func run(c Case) ([]vk.Violation, vk.Info) {
 	// --- identity: self, derived list, other ---
 	selfEq := s.Equals(&s) && s.Equivalent() == s.Equivalent()
 	if !selfEq {
-		bad("not_self_equal", "Set %v does not equal itself", want)
+		bad("not_self_equal", "Set %s does not equal itself", show(want))
 	}
-	dl := vk.ToAttrs(derived(c))
-	dm := newModel(dl)
-	if !dm.bitEqual(m) {
+	dkvs := derived(c)
+	dl := vk.ToAttrs(dkvs)
+	if !newModel(dkvs).bitEqual(m) {
 		panic("harness bug: derived list changes the model")
 	}
 	s2 := attribute.NewSet(dl...)
 	if !s.Equals(&s2) || !s2.Equals(&s) || s.Equivalent() != s2.Equivalent() {
-		bad("order_dup_sensitive", "NewSet(input) != NewSet(permuted+duplicated input): %v vs %v", renderSlice(s.ToSlice()), renderSlice(s2.ToSlice()))
+		bad("order_dup_sensitive", "NewSet(input) != NewSet(permuted+duplicated input): %s vs %s", show(renderSlice(s.ToSlice())), show(renderSlice(s2.ToSlice())))
 	}
 	idx := map[attribute.Distinct]int{s.Equivalent(): 1}
 	if _, ok := idx[s2.Equivalent()]; !ok {
-		bad("map_key_unstable", "Equivalent() of an equal set misses as map key: %v", want)
+		bad("map_key_unstable", "Equivalent() of an equal set misses as map key: %s", show(want))
 	}
 	// the same mapping obtained through the other constructors of every value
 	// type (attribute.Int / IntSlice / Key.X / XValue / Stringer ...)
 	for shift := 0; shift < 3; shift++ {
 		alt := make([]attribute.KeyValue, 0, len(m.keys))
 		for i, k := range m.keys {
-			alt = append(alt, altKeyValue(k, m.val[k], i+shift))
+			alt = append(alt, altKeyValue(m.kv[k], i+shift))
 		}
 		s3 := attribute.NewSet(alt...)
 		if !sameStrings(renderSlice(s3.ToSlice()), want) {
-			bad("constructor_sensitive", "the set built through alternative constructors (variant %d) holds %v, model %v", shift, renderSlice(s3.ToSlice()), want)
+			bad("constructor_sensitive", "the set built through alternative constructors (variant %d) holds %s, supplied %s", shift, show(renderSlice(s3.ToSlice())), show(want))
 		} else if !s.Equals(&s3) || !s3.Equals(&s) || s.Equivalent() != s3.Equivalent() {
-			bad("constructor_sensitive", "the set built through alternative constructors (variant %d) holds the same key -> typed value mapping %v but is not Equal / has another Equivalent()", shift, want)
+			bad("constructor_sensitive", "the set built through alternative constructors (variant %d) holds the same key -> typed value mapping %s but is not Equal / has another Equivalent()", shift, show(want))
 		}
 	}
-	// what Emit renders can be read back into the value (an independent
-	// reading of "encoding agrees with the contents")
-	for _, k := range m.keys {
-		if why := emitDisagrees(m.val[k]); why != "" {
-			bad("emit_disagrees", "key %q: %s", k, why)
+	// what Emit renders can be read back into the value that was supplied (an
+	// independent reading of "encoding agrees with the contents")
+	for i, k := range m.keys {
+		if i < len(got) {
+			if why := emitDisagrees(got[i].Value, m.kv[k]); why != "" {
+				bad("emit_disagrees", "key %q: %s", k, why)
+			}
 		}
 	}
 	other := vk.ToAttrs(c.Other)
-	om := newModel(other)
+	om := newModel(c.Other)
 	so := attribute.NewSet(append([]attribute.KeyValue{}, other...)...)
+	if !sameStrings(renderSlice(so.ToSlice()), om.render()) {
+		bad("toslice_model", "partner list: ToSlice() = %s, supplied %s", show(renderSlice(so.ToSlice())), show(om.render()))
+	}
 	eq := s.Equals(&so)
 	if eq != so.Equals(&s) || eq != (s.Equivalent() == so.Equivalent()) {
 		bad("equals_inconsistent", "Equals not symmetric / disagrees with Equivalent()==")
@@ -367,13 +373,13 @@ func run(c Case) ([]vk.Violation, vk.Info) {
 	be, ge := m.bitEqual(om), m.goEqual(om)
 	switch {
 	case be && !eq:
-		bad("same_mapping_not_equal", "sets with identical key->typed value mapping are not Equal: %v", want)
+		bad("same_mapping_not_equal", "sets with identical key->typed value mapping are not Equal: %s", show(want))
 	case !be && !ge && eq:
-		bad("different_mapping_equal", "sets with different mappings are Equal: %v vs %v", want, om.render())
+		bad("different_mapping_equal", "sets built from different mappings are Equal: %s vs %s", show(want), show(om.render()))
 	}
 	_, hit := idx[so.Equivalent()]
 	if (be && !hit) || (!be && !ge && hit) {
-		bad("map_key_identity", "map lookup by Equivalent() = %v; bit-equal %v go-equal %v", hit, be, ge)
+		bad("map_key_identity", "map lookup by Equivalent() = %v; bit-equal %v go-equal %v: %s vs %s", hit, be, ge, show(want), show(om.render()))
 	}
 
 	// --- the other constructors and renderings agree with the contents ---
@@ -381,17 +387,20 @@ func run(c Case) ([]vk.Violation, vk.Info) {
 		var tmp attribute.Sortable
 		viaSortable := attribute.NewSetWithSortable(append([]attribute.KeyValue{}, input...), &tmp) //nolint:staticcheck // deprecated, still exported
 		if !sameStrings(renderSlice(viaSortable.ToSlice()), want) {
-			bad("newsetwithsortable", "NewSetWithSortable = %v, model %v", renderSlice(viaSortable.ToSlice()), want)
+			bad("newsetwithsortable", "NewSetWithSortable = %s, model %s", show(renderSlice(viaSortable.ToSlice())), show(want))
 		}
 		ml, ok := s.MarshalLog().(map[string]string)
 		if !ok || len(ml) != len(m.keys) {
-			bad("marshallog", "MarshalLog() = %v, model has %d keys", s.MarshalLog(), len(m.keys))
+			bad("marshallog", "MarshalLog() has %d entries, model has %d keys", len(ml), len(m.keys))
 		} else {
 			for _, k := range m.keys {
-				if ml[k] != m.val[k].Emit() {
-					bad("marshallog", "MarshalLog()[%q] = %q, model %q", k, ml[k], m.val[k].Emit())
+				if ml[k] != m.kv[k].ToAttr().Value.Emit() {
+					bad("marshallog", "MarshalLog()[%q] = %q, model %q", k, ml[k], m.kv[k].ToAttr().Value.Emit())
 				}
 			}
+		}
+		if why := jsonDisagrees(&s, m); why != "" {
+			bad("marshaljson", "%s", why)
 		}
 	}
 
@@ -414,11 +423,10 @@ func run(c Case) ([]vk.Violation, vk.Info) {
 					bad("empty_sets_differ", "the empty sets obtained as %s and as %s are not Equal / have different Equivalent()", names[i], names[j])
 				}
 			}
-			if prev, ok := keyed[e.Equivalent()]; !ok && len(keyed) > 0 {
+			if _, ok := keyed[e.Equivalent()]; !ok && len(keyed) > 0 {
 				bad("empty_sets_differ", "the empty set obtained as %s has another Equivalent() map key than the others", names[i])
 			} else if !ok {
 				keyed[e.Equivalent()] = names[i]
-				_ = prev
 			}
 			if eq := e.Equals(&s); eq != (len(m.keys) == 0) || eq != s.Equals(e) {
 				bad("empty_vs_set", "%s Equals the set under test = %v, but the set has %d keys", names[i], eq, len(m.keys))
@@ -427,53 +435,37 @@ func run(c Case) ([]vk.Violation, vk.Info) {
 	}
 
 	// --- filtering ---
-	f, keep := mkFilter(c)
-	var wantKept, wantDropped []string
-	for _, k := range m.keys {
-		r := fmt.Sprintf("%q=%s", k, vk.ValueKey(m.val[k]))
-		if keep(k) {
-			wantKept = append(wantKept, r)
-		} else {
-			wantDropped = append(wantDropped, r)
-		}
-	}
+	f, keep := mkFilter(c.FKind, c.Filter, string(c.Pivot), c.Deny)
+	mKept, mDropped := m.filtered(keep)
+	wantKept, wantDropped := mKept.render(), mDropped.render()
 	before := renderSlice(s.ToSlice())
 	ks, dropped := s.Filter(f)
 	if !sameStrings(renderSlice(ks.ToSlice()), wantKept) {
-		bad("filter_kept", "Filter kept %v, model %v", renderSlice(ks.ToSlice()), wantKept)
+		bad("filter_kept", "Filter kept %s, model %s", show(renderSlice(ks.ToSlice())), show(wantKept))
 	}
-	dr := renderSlice(dropped)
-	sort.Strings(dr)
-	wd := append([]string{}, wantDropped...)
-	sort.Strings(wd)
-	if !sameStrings(dr, wd) {
-		bad("filter_dropped", "Filter dropped %v, model %v", dr, wd)
+	wd := sorted(wantDropped)
+	if dr := sorted(renderSlice(dropped)); !sameStrings(dr, wd) {
+		bad("filter_dropped", "Filter dropped %s, model %s", show(dr), show(wd))
 	}
 	// What a call returned belongs to the caller: later Filter calls (on this
 	// and on other sets, dropping other things) must not change it.
-	_, droppedOther := so.Filter(f)
+	_, _ = so.Filter(f)
 	inverse := func(kv attribute.KeyValue) bool { return !f(kv) }
 	_, droppedInverse := s.Filter(inverse)
 	_, _ = so.Filter(inverse)
-	dr = renderSlice(dropped)
-	sort.Strings(dr)
-	if !sameStrings(dr, wd) {
-		bad("filter_dropped_changed_later", "the dropped list returned by Filter changed when Filter was called again: now %v, model %v", dr, wd)
+	if dr := sorted(renderSlice(dropped)); !sameStrings(dr, wd) {
+		bad("filter_dropped_changed_later", "the dropped list returned by Filter changed when Filter was called again: now %s, model %s", show(dr), show(wd))
 	}
-	di := renderSlice(droppedInverse)
-	sort.Strings(di)
-	wk := append([]string{}, wantKept...)
-	sort.Strings(wk)
-	if !sameStrings(di, wk) {
-		bad("filter_dropped", "Filter with the inverse predicate dropped %v (read after a further Filter call), model %v", di, wk)
+	wk := sorted(wantKept)
+	if di := sorted(renderSlice(droppedInverse)); !sameStrings(di, wk) {
+		bad("filter_dropped", "Filter with the inverse predicate dropped %s (read after a further Filter call), model %s", show(di), show(wk))
 	}
-	_ = droppedOther
 	// scribble over what Filter returned: the original must not notice.
 	for i := range dropped {
 		dropped[i] = attribute.String("scribble", "x")
 	}
 	if !sameStrings(renderSlice(s.ToSlice()), before) {
-		bad("filter_mutates_receiver", "receiver changed by Filter: %v -> %v", before, renderSlice(s.ToSlice()))
+		bad("filter_mutates_receiver", "receiver changed by Filter: %s -> %s", show(before), show(renderSlice(s.ToSlice())))
 	}
 	if !sameStrings(renderSlice(ks.ToSlice()), wantKept) {
 		bad("filter_result_aliases_dropped", "kept set changed when the dropped slice was written")
@@ -481,51 +473,119 @@ func run(c Case) ([]vk.Violation, vk.Info) {
 	work2 := append([]attribute.KeyValue{}, input...)
 	fs, fdropped := attribute.NewSetWithFiltered(work2, f)
 	if !sameStrings(renderSlice(fs.ToSlice()), wantKept) {
-		bad("newsetfiltered_kept", "NewSetWithFiltered kept %v, model %v", renderSlice(fs.ToSlice()), wantKept)
+		bad("newsetfiltered_kept", "NewSetWithFiltered kept %s, model %s", show(renderSlice(fs.ToSlice())), show(wantKept))
 	}
-	fd := renderSlice(fdropped)
-	sort.Strings(fd)
-	if !sameStrings(fd, wd) {
-		bad("newsetfiltered_dropped", "NewSetWithFiltered dropped %v, model %v", fd, wd)
+	if fd := sorted(renderSlice(fdropped)); !sameStrings(fd, wd) {
+		bad("newsetfiltered_dropped", "NewSetWithFiltered dropped %s, model %s", show(fd), show(wd))
 	}
-	if !sameMultiset(multiset(work2), inputMS) {
-		bad("caller_slice_lost_values", "caller slice after NewSetWithFiltered %v, passed %v", renderSlice(work2), renderSlice(input))
+	if !sameMultiset(multiset(renderSlice(work2)), inputMS) {
+		bad("caller_slice_lost_values", "caller slice after NewSetWithFiltered %s, supplied %s", show(renderSlice(work2)), show(rawList(c.KVs)))
 	}
 	if !fs.Equals(&ks) && !m.hasNaNSlice() {
 		bad("filter_paths_disagree", "Set.Filter and NewSetWithFiltered give unequal sets")
 	}
-
-	// --- merge ---
-	mi := attribute.NewMergeIterator(&s, &so)
-	var merged []attribute.KeyValue
-	for mi.Next() {
-		merged = append(merged, mi.Attribute())
+	{
+		var tmp attribute.Sortable
+		work3 := append([]attribute.KeyValue{}, input...)
+		fs3, fd3 := attribute.NewSetWithSortableFiltered(work3, &tmp, f) //nolint:staticcheck // deprecated, still exported
+		if !sameStrings(renderSlice(fs3.ToSlice()), wantKept) || !sameStrings(sorted(renderSlice(fd3)), wd) {
+			bad("newsetfiltered_kept", "NewSetWithSortableFiltered kept %s dropped %s, model %s / %s", show(renderSlice(fs3.ToSlice())), show(sorted(renderSlice(fd3))), show(wantKept), show(wd))
+		}
+		if !sameMultiset(multiset(renderSlice(work3)), inputMS) {
+			bad("caller_slice_lost_values", "caller slice after NewSetWithSortableFiltered %s, supplied %s", show(renderSlice(work3)), show(rawList(c.KVs)))
+		}
 	}
-	union := newModel(append(append([]attribute.KeyValue{}, so.ToSlice()...), s.ToSlice()...)) // s wins
-	if !sameStrings(renderSlice(merged), union.render()) {
-		bad("merge", "MergeIterator = %v, model %v", renderSlice(merged), union.render())
+
+	// --- merge: first set wins, sorted, in every pairing ---
+	empty := attribute.NewSet()
+	for _, pr := range []struct {
+		name   string
+		a, b   *attribute.Set
+		ma, mb model
+	}{
+		{"(set, partner)", &s, &so, m, om},
+		{"(partner, set)", &so, &s, om, m},
+		{"(set, set)", &s, &s, m, m},
+		{"(set, empty)", &s, &empty, m, model{}},
+		{"(empty, partner)", attribute.EmptySet(), &so, model{}, om},
+	} {
+		mi := attribute.NewMergeIterator(pr.a, pr.b)
+		var merged []attribute.KeyValue
+		for mi.Next() {
+			merged = append(merged, mi.Attribute())
+			if l := mi.Label(); vk.ValueKey(l.Value) != vk.ValueKey(mi.Attribute().Value) || l.Key != mi.Attribute().Key { //nolint:staticcheck // deprecated, still exported
+				bad("merge", "MergeIterator%s: Label() and Attribute() disagree", pr.name)
+			}
+		}
+		union := newModel(append(append([]vk.KV{}, pr.mb.list()...), pr.ma.list()...)) // the first set wins
+		if !sameStrings(renderSlice(merged), union.render()) {
+			bad("merge", "MergeIterator%s = %s, model %s", pr.name, show(renderSlice(merged)), show(union.render()))
+		}
 	}
 
 	// --- encoding ---
-	allValid := true
-	for _, k := range m.keys {
-		if !utf8.ValidString(k) || (m.val[k].Type() == attribute.STRING && !utf8.ValidString(m.val[k].AsString())) {
-			allValid = false
+	if m.textValid(false) {
+		if enc := s.Encoded(attribute.DefaultEncoder()); enc != m.refDefaultEncoding() {
+			bad("encoded", "Encoded = %q, reference %q", enc, m.refDefaultEncoding())
 		}
 	}
-	if allValid {
-		var parts []string
-		for _, k := range m.keys {
-			v := m.val[k]
-			if v.Type() == attribute.STRING {
-				parts = append(parts, refEscape(k)+"="+refEscape(v.AsString()))
-			} else {
-				parts = append(parts, refEscape(k)+"="+v.Emit())
+	// One variable holding one set after the other: a Set is a plain value and
+	// its encoding is that of what the variable holds now.
+	{
+		holder := s
+		first := holder.Encoded(peekEncoder{})
+		holder = so
+		second := holder.Encoded(peekEncoder{})
+		if first != strings.Join(want, ";") || second != strings.Join(om.render(), ";") {
+			bad("encoded_after_reassignment", "one variable assigned the set and then the partner set: Encoded(custom encoder) = %q then %q, contents %q then %q", first, second, strings.Join(want, ";"), strings.Join(om.render(), ";"))
+		}
+		if m.textValid(false) && om.textValid(false) {
+			holder = s
+			first = holder.Encoded(attribute.DefaultEncoder())
+			holder = so
+			second = holder.Encoded(attribute.DefaultEncoder())
+			if first != m.refDefaultEncoding() || second != om.refDefaultEncoding() {
+				bad("encoded_after_reassignment", "one variable assigned the set and then the partner set: Encoded(DefaultEncoder()) = %q then %q, reference %q then %q", first, second, m.refDefaultEncoding(), om.refDefaultEncoding())
 			}
 		}
-		if enc := s.Encoded(attribute.DefaultEncoder()); enc != strings.Join(parts, ",") {
-			bad("encoded", "Encoded = %q, reference %q", enc, strings.Join(parts, ","))
+	}
+
+	// --- what was handed out belongs to the caller: writing to it does not
+	// change the set ("contains each key once with the value supplied last") ---
+	for i := range got {
+		switch got[i].Value.Type() {
+		case attribute.BOOLSLICE:
+			for _, x := range [][]bool{got[i].Value.AsBoolSlice(), got[i].Value.AsInterface().([]bool)} {
+				for j := range x {
+					x[j] = !x[j]
+				}
+			}
+		case attribute.INT64SLICE:
+			for _, x := range [][]int64{got[i].Value.AsInt64Slice(), got[i].Value.AsInterface().([]int64)} {
+				for j := range x {
+					x[j]++
+				}
+			}
+		case attribute.FLOAT64SLICE:
+			for _, x := range [][]float64{got[i].Value.AsFloat64Slice(), got[i].Value.AsInterface().([]float64)} {
+				for j := range x {
+					x[j] = 42.5
+				}
+			}
+		case attribute.STRINGSLICE:
+			for _, x := range [][]string{got[i].Value.AsStringSlice(), got[i].Value.AsInterface().([]string)} {
+				for j := range x {
+					x[j] = "scribble"
+				}
+			}
 		}
+		got[i] = attribute.String("scribble", "x")
+	}
+	if again := renderSlice(s.ToSlice()); !sameStrings(again, want) {
+		bad("handed_out_slice_aliases_set", "after writing to the slices returned by ToSlice / As...Slice / AsInterface the set holds %s, supplied %s", show(again), show(want))
+	}
+	if !s.Equals(&s2) && !m.hasNaNSlice() {
+		bad("handed_out_slice_aliases_set", "after writing to the slices returned by ToSlice / As...Slice / AsInterface the set is no longer Equal to the set built from the permuted list")
 	}
 
 	dup := len(input) > len(m.keys)
@@ -535,12 +595,35 @@ func run(c Case) ([]vk.Violation, vk.Info) {
 	info.ClassIf(len(m.keys) >= 11, "reflect_path(>=11 distinct)")
 	info.ClassIf(len(m.keys) == 10, "exactly_10_distinct")
 	info.ClassIf(len(m.keys) == 0, "empty_set")
+	info.ClassIf(len(input) > 64, "long_list(>64)")
+	info.ClassIf(len(input) > 512, "long_list(>512)")
+	info.ClassIf(len(m.keys) > 64, "many_distinct_keys(>64)")
 	info.ClassIf(split, "filter_splits")
+	info.ClassIf(split && c.FKind != "keys" && c.FKind != "", "filter_splits/"+c.FKind)
 	info.ClassIf(m.hasNaNSlice(), "nan_in_float64slice")
 	info.ClassIf(be, "other_bit_equal")
 	info.ClassIf(!be && !ge, "other_differs")
 	info.ClassIf(be != ge, "other_equal_under_one_notion_only")
+	info.ClassIf(!be && nearTwin(m, om), "other_is_near_twin")
+	info.ClassIf(!m.textValid(true) && m.textValid(false), "invalid_utf8_in_string_slice")
+	info.ClassIf(!m.textValid(false), "invalid_utf8_in_string_or_key")
 	return vs, info
+}
+
+// nearTwin reports whether the two models differ in at most one key.
+func nearTwin(a, b model) bool {
+	diff := 0
+	for _, k := range a.keys {
+		if kv, ok := b.kv[k]; !ok || rawKey(kv) != rawKey(a.kv[k]) {
+			diff++
+		}
+	}
+	for _, k := range b.keys {
+		if _, ok := a.kv[k]; !ok {
+			diff++
+		}
+	}
+	return diff == 1 || (diff == 2 && len(a.keys) == len(b.keys))
 }
 
 // peekEncoder is a user-defined attribute.Encoder: it looks at the first
@@ -558,7 +641,7 @@ func (peekEncoder) Encode(it attribute.Iterator) string {
 func TestSetModel(t *testing.T) {
 	vk.Run(t, vk.Spec[Case]{
 		Property: "C05", Check: "set_model",
-		Rule: "kv lists of 0..24 over all eight value types (NaN, signed zeros, empty/invalid keys, invalid UTF-8), a permuted+duplicated derivative, a partner list and an allow/deny key filter; " +
+		Rule: "kv lists of 0..24 (occasionally up to 1024 over a wide key space) over all eight value types (NaN, signed zeros, empty/invalid keys, invalid UTF-8 in strings and string-slice elements), compared with a model built from the generated data (not from the constructors' results); a permuted+duplicated derivative; a partner list (unrelated / one value replaced / one key more / a near-twin one small edit away / identical); a filter predicate (allow/deny key list, by value type, keys below a pivot, Valid()); " +
 			"non-trivial = the list has a duplicate key, or >= 11 distinct keys (reflect path), or the filter splits the set into two non-empty parts; distinct = distinct case encodings",
 		Quick: 20000, Thorough: 300000,
 		Gen: gen, Run: run,
@@ -567,7 +650,7 @@ func TestSetModel(t *testing.T) {
 			"float64slice_contains_nan": func(c Case, v vk.Violation) bool {
 				switch v.Kind {
 				case "not_self_equal", "order_dup_sensitive", "constructor_sensitive", "map_key_unstable", "same_mapping_not_equal", "map_key_identity":
-					return newModel(vk.ToAttrs(c.KVs)).hasNaNSlice()
+					return newModel(c.KVs).hasNaNSlice()
 				}
 				return false
 			},
@@ -579,90 +662,120 @@ type strer string
 
 func (s strer) String() string { return string(s) }
 
-// altKeyValue builds k -> v through the n-th of the public constructors that
-// yield this typed value.
-func altKeyValue(k string, v attribute.Value, n int) attribute.KeyValue {
+// altKeyValue builds the key-value the data describes through the n-th of
+// the public constructors that yield this typed value.
+func altKeyValue(kv vk.KV, n int) attribute.KeyValue {
+	k := string(kv.K)
 	key := attribute.Key(k)
-	switch v.Type() {
-	case attribute.BOOL:
-		b := v.AsBool()
+	switch kv.T {
+	case "bool":
+		b := kv.B
 		return [...]attribute.KeyValue{attribute.Bool(k, b), key.Bool(b), {Key: key, Value: attribute.BoolValue(b)}}[n%3]
-	case attribute.INT64:
-		i := v.AsInt64()
+	case "int":
+		i := kv.I
+		if int64(int(i)) != i {
+			return [...]attribute.KeyValue{attribute.Int64(k, i), key.Int64(i), {Key: key, Value: attribute.Int64Value(i)}}[n%3]
+		}
 		return [...]attribute.KeyValue{attribute.Int64(k, i), attribute.Int(k, int(i)), key.Int64(i), key.Int(int(i)), {Key: key, Value: attribute.IntValue(int(i))}, {Key: key, Value: attribute.Int64Value(i)}}[n%6]
-	case attribute.FLOAT64:
-		f := v.AsFloat64()
+	case "float":
+		f := float64(kv.F)
 		return [...]attribute.KeyValue{attribute.Float64(k, f), key.Float64(f), {Key: key, Value: attribute.Float64Value(f)}}[n%3]
-	case attribute.STRING:
-		str := v.AsString()
+	case "str":
+		str := string(kv.S)
 		return [...]attribute.KeyValue{attribute.String(k, str), key.String(str), attribute.Stringer(k, strer(str)), {Key: key, Value: attribute.StringValue(str)}}[n%4]
-	case attribute.BOOLSLICE:
-		bs := v.AsBoolSlice()
+	case "bools":
+		// lent with spare capacity; nil and empty slices are the same value
+		bs := append(make([]bool, 0, len(kv.BS)+n%3), kv.BS...)
+		if len(bs) == 0 && n%2 == 1 {
+			bs = nil
+		}
 		return [...]attribute.KeyValue{attribute.BoolSlice(k, bs), key.BoolSlice(bs), {Key: key, Value: attribute.BoolSliceValue(bs)}}[n%3]
-	case attribute.INT64SLICE:
-		is := v.AsInt64Slice()
+	case "ints":
+		is := append(make([]int64, 0, len(kv.IS)+n%3), kv.IS...)
+		fits := true
 		ints := make([]int, len(is))
 		for j, x := range is {
 			ints[j] = int(x)
+			fits = fits && int64(int(x)) == x
 		}
-		var nilInts []int
-		if len(ints) == 0 && n%2 == 1 {
-			ints = nilInts
+		if len(is) == 0 && n%2 == 1 {
+			is, ints = nil, nil
+		}
+		if !fits {
+			return [...]attribute.KeyValue{attribute.Int64Slice(k, is), key.Int64Slice(is), {Key: key, Value: attribute.Int64SliceValue(is)}}[n%3]
 		}
 		return [...]attribute.KeyValue{attribute.Int64Slice(k, is), attribute.IntSlice(k, ints), key.Int64Slice(is), key.IntSlice(ints), {Key: key, Value: attribute.IntSliceValue(ints)}, {Key: key, Value: attribute.Int64SliceValue(is)}}[n%6]
-	case attribute.FLOAT64SLICE:
-		fs := v.AsFloat64Slice()
+	case "floats":
+		fs := make([]float64, 0, len(kv.FS)+n%3)
+		for _, f := range kv.FS {
+			fs = append(fs, float64(f))
+		}
+		if len(fs) == 0 && n%2 == 1 {
+			fs = nil
+		}
 		return [...]attribute.KeyValue{attribute.Float64Slice(k, fs), key.Float64Slice(fs), {Key: key, Value: attribute.Float64SliceValue(fs)}}[n%3]
-	case attribute.STRINGSLICE:
-		ss := v.AsStringSlice()
+	case "strs":
+		ss := append(make([]string, 0, len(kv.SS)+n%3), vk.Strs(kv.SS)...)
+		if len(ss) == 0 && n%2 == 1 {
+			ss = nil
+		}
 		return [...]attribute.KeyValue{attribute.StringSlice(k, ss), key.StringSlice(ss), {Key: key, Value: attribute.StringSliceValue(ss)}}[n%3]
 	}
-	return attribute.KeyValue{Key: key, Value: v}
+	return attribute.KeyValue{Key: key}
 }
 
-// emitDisagrees reads v.Emit() back and compares it with the contents. It
-// returns "" when they agree. Non-finite floats inside a FLOAT64SLICE have no
-// JSON form: only a non-empty rendering is asked for there.
-func emitDisagrees(v attribute.Value) string {
+func f64s(in []vk.F64) []float64 {
+	out := make([]float64, len(in))
+	for i, f := range in {
+		out[i] = float64(f)
+	}
+	return out
+}
+
+// emitDisagrees reads v.Emit() back and compares it with the data that was
+// supplied. It returns "" when they agree. Non-finite floats inside a
+// FLOAT64SLICE have no JSON form: only a non-empty rendering is asked for
+// there.
+func emitDisagrees(v attribute.Value, raw vk.KV) string {
 	e := v.Emit()
-	switch v.Type() {
-	case attribute.BOOL:
-		if b, err := strconv.ParseBool(e); err != nil || b != v.AsBool() {
-			return fmt.Sprintf("Emit() = %q for the bool %v", e, v.AsBool())
+	switch raw.T {
+	case "bool":
+		if b, err := strconv.ParseBool(e); err != nil || b != raw.B {
+			return fmt.Sprintf("Emit() = %q for the bool %v", e, raw.B)
 		}
-	case attribute.INT64:
-		if i, err := strconv.ParseInt(e, 10, 64); err != nil || i != v.AsInt64() {
-			return fmt.Sprintf("Emit() = %q for the int64 %d", e, v.AsInt64())
+	case "int":
+		if i, err := strconv.ParseInt(e, 10, 64); err != nil || i != raw.I {
+			return fmt.Sprintf("Emit() = %q for the int64 %d", e, raw.I)
 		}
-	case attribute.FLOAT64:
+	case "float":
 		f, err := strconv.ParseFloat(e, 64)
-		w := v.AsFloat64()
+		w := float64(raw.F)
 		if err != nil || !(f == w || (f != f && w != w)) {
 			return fmt.Sprintf("Emit() = %q for the float64 %v", e, w)
 		}
-	case attribute.STRING:
-		if e != v.AsString() {
-			return fmt.Sprintf("Emit() = %q for the string %q", e, v.AsString())
+	case "str":
+		if e != string(raw.S) {
+			return fmt.Sprintf("Emit() = %q for the string %q", e, string(raw.S))
 		}
-	case attribute.BOOLSLICE:
-		var got []bool
+	case "bools":
+		got := []bool{}
 		for _, f := range strings.Fields(strings.Trim(e, "[]")) {
 			b, err := strconv.ParseBool(f)
 			if err != nil {
-				return fmt.Sprintf("Emit() = %q for the bool slice %v", e, v.AsBoolSlice())
+				return fmt.Sprintf("Emit() = %q for the bool slice %v", e, raw.BS)
 			}
 			got = append(got, b)
 		}
-		if fmt.Sprint(got) != fmt.Sprint(append([]bool(nil), v.AsBoolSlice()...)) {
-			return fmt.Sprintf("Emit() = %q for the bool slice %v", e, v.AsBoolSlice())
+		if fmt.Sprint(got) != fmt.Sprint(append([]bool{}, raw.BS...)) {
+			return fmt.Sprintf("Emit() = %q for the bool slice %v", e, raw.BS)
 		}
-	case attribute.INT64SLICE:
+	case "ints":
 		var got []int64
-		if err := json.Unmarshal([]byte(e), &got); err != nil || fmt.Sprint(got) != fmt.Sprint(append([]int64(nil), v.AsInt64Slice()...)) {
-			return fmt.Sprintf("Emit() = %q for the int64 slice %v", e, v.AsInt64Slice())
+		if err := json.Unmarshal([]byte(e), &got); err != nil || fmt.Sprint(append([]int64{}, got...)) != fmt.Sprint(append([]int64{}, raw.IS...)) {
+			return fmt.Sprintf("Emit() = %q for the int64 slice %v", e, raw.IS)
 		}
-	case attribute.FLOAT64SLICE:
-		w := v.AsFloat64Slice()
+	case "floats":
+		w := f64s(raw.FS)
 		for _, f := range w {
 			if math.IsNaN(f) || math.IsInf(f, 0) {
 				if e == "" {
@@ -680,8 +793,8 @@ func emitDisagrees(v attribute.Value) string {
 				return fmt.Sprintf("Emit() = %q for the float64 slice %v", e, w)
 			}
 		}
-	case attribute.STRINGSLICE:
-		w := v.AsStringSlice()
+	case "strs":
+		w := vk.Strs(raw.SS)
 		for _, x := range w {
 			if !utf8.ValidString(x) {
 				return "" // JSON replaces invalid bytes: not asserted
